@@ -13,7 +13,7 @@ import (
 )
 
 func main() {
-	mode := flag.String("mode", "loop", "loop|cli|regex|spec|explore")
+	mode := flag.String("mode", "loop", "loop|cli|regex|spec|print|explore")
 	tier := flag.String("tier", "quick", "quick|thorough")
 	outDir := flag.String("out", "", "output directory")
 	flag.Parse()
@@ -36,6 +36,8 @@ func main() {
 		runRegex(w, *tier)
 	case "spec":
 		runSpec(w, *tier)
+	case "print":
+		runPrint(w, *tier)
 	default:
 		fmt.Fprintln(os.Stderr, "unknown mode")
 		os.Exit(2)
